@@ -44,11 +44,14 @@ func C04_Bind() {
 		g.stmt("f = K")
 		g.src += "}\n"
 	}
-	switch verif.Choice("second", 3) {
+	switch verif.Choice("second", 4) {
 	case 1:
 		g.src += "bind t:last -> slice\n"
 	case 2:
 		g.src += "bind u -> struct\n"
+	case 3:
+		// three binds: every bind after the first warns
+		g.src += "bind t:last -> slice\nbind t:first -> struct\nbind t:first -> slice\n"
 	}
 	r := runBoth(g.src, g.values)
 	verif.Observe("rejected", r.ParseErr != nil)
